@@ -21,6 +21,8 @@ func init() {
 }
 
 func runC17(c *Ctx) {
+	offsetWidthRule(c, "R2-offsets-64bit")
+	applyResizeRule(c, "R3-follower-resized-to-commit")
 	pageCopyRules(c, "R1-dense-loops-skip-lock-page", false)
 	// other counted uint32 loops feeding EncodePage anywhere in production code
 	{
